@@ -17,6 +17,13 @@ Proof.
   intro H. destruct (H ex12 [] [] ex12_uncompressed_ok) as [r' Hr]. rewrite ex12_compressed_fails in Hr. discriminate.
 Qed.
 Print Assumptions C12_refuted.
+(* a second, independent witness (known finding K2): the ABSOLUTE value of a label inside a non-transfer immediate at the edge of
+   its range -- add x8, x8, x9 / L: / addi x1, x0, 2050 - L -- is accepted without compression (L = 4) and refused with it (L = 2).
+   No align is involved: any option that changes the layout changes what such a program means. *)
+Theorem C12_refuted_label_arithmetic :
+  (exists r, assemble_items ex13 [] [] false = Done r) /\ assemble_items ex13 [] [] true = Fail (PAsm (exL 3)).
+Proof. split. exact ex13_uncompressed_ok. exact ex13_compressed_fails. Qed.
+Print Assumptions C12_refuted_label_arithmetic.
 
 (* What IS proved.  The compression pass cannot introduce an encoding failure on a settled immediate: whenever a rule is selected the
    generated c.* encoder ACCEPTS the operands the construction row builds (for every register spelling and every
